@@ -46,7 +46,17 @@ func atomicOp(desc string) bool {
 // Returns the world (nil if setup did not finish), number of completed ops, and whether the worker died.
 func runWorkload(w *drv.Worker, seed int64, types []string, nops int, each func(i int, wd *mixed.World, desc string) error) (*mixed.World, int, bool, error) {
 	r := rand.New(rand.NewSource(seed))
-	wd, err := mixed.New(w, r, mixed.Opts{Types: types, Tag: "c"})
+	// the pseudo type "admin" adds instance create / rename / delete and side-repo create / delete steps
+	admin := false
+	var dataTypes []string
+	for _, t := range types {
+		if t == "admin" {
+			admin = true
+		} else {
+			dataTypes = append(dataTypes, t)
+		}
+	}
+	wd, err := mixed.New(w, r, mixed.Opts{Types: dataTypes, Tag: "c", Admin: admin, AdminEvery: 3})
 	if err != nil {
 		if w.Dead() {
 			return nil, -1, true, nil
@@ -449,9 +459,9 @@ func run(c *drv.Ctx) error {
 	}
 	wls := []wl{{"w0", []string{"kv", "lm", "nj"}, c.N(12, 30)}}
 	if !c.Quick() {
-		wls = append(wls, wl{"w1", []string{"kv", "lm", "ann", "roi", "img", "nj"}, 30}, wl{"w2", []string{"kv"}, 60}, wl{"w3", []string{"lm", "ann"}, 30}, wl{"w4", []string{"kv", "nj", "roi", "img"}, 40})
+		wls = append(wls, wl{"w1", []string{"kv", "lm", "ann", "roi", "img", "nj"}, 30}, wl{"w2", []string{"kv"}, 60}, wl{"w3", []string{"lm", "ann"}, 30}, wl{"w4", []string{"kv", "nj", "roi", "img"}, 40}, wl{"w5", []string{"kv", "admin"}, 80})
 	} else {
-		wls = append(wls, wl{"w1", []string{"kv", "ann", "lm", "roi", "img"}, 10})
+		wls = append(wls, wl{"w1", []string{"kv", "ann", "lm", "roi", "img"}, 10}, wl{"w2", []string{"kv", "admin"}, 30})
 	}
 	type job struct {
 		cs     *census
